@@ -154,6 +154,13 @@ let project (prefixes : str list) (v : vline list) : vline list =
   List.sort (fun (a, _) (b, _) -> compare a b) @@
   List.map (fun (k, toks) -> (k, List.filter (fun t -> List.exists (fun p -> starts p t) prefixes) toks)) v
 
+(* the harness cannot always read the metrics (no handle left): observed `mc=-` matches anything *)
+let tok_match o m = o = m || (o = "mc=-" && starts "mc=" m)
+let line_match (ko, to_) (km, tm) =
+  ko = km && List.length to_ = List.length tm && List.for_all2 tok_match to_ tm
+let views_match (o : vline list) (m : vline list) =
+  List.length o = List.length m && List.for_all2 line_match o m
+
 let s_vline (k, toks) = k ^ " " ^ String.concat " " toks
 let print_view oc v = List.iter (fun l -> output_string oc (s_vline l ^ "\n")) v
 
@@ -294,7 +301,7 @@ let () =
           | Some rounds ->
               let o = try project prefixes (List.nth rounds (!round - 1))
                       with _ -> failwith (Printf.sprintf "observed file has no round %d" !round) in
-              let ok = List.filter (fun x -> project prefixes (render sc.feats (view_of x)) = o) after in
+              let ok = List.filter (fun x -> views_match o (project prefixes (render sc.feats (view_of x)))) after in
               if ok = [] then begin
                 Printf.printf "DIVERGE round=%d candidates=%d\n" !round (List.length after);
                 Printf.printf "--- observed (projected %s)\n" !proj; print_view stdout o;
